@@ -82,7 +82,7 @@ def formatUnknown (n : Nat) : Txt := unknownTxt ++ txt "(" ++ natDigits n ++ txt
 
 /-- message name as the writer prints it: `MesgNum.String()`, or unknown / unknown(N) for an unlisted number -/
 def mesgNameOf (o : Opts) (n : Nat) : Txt :=
-  match mesgNames.lookup n with
+  match (if n ≥ mfgRangeMin then none else mesgNames.lookup n) with   -- manufacturer specific numbers are written as unknown
   | some s => txt s
   | none => if o.verbose then formatUnknown n else unknownTxt
 
@@ -127,8 +127,7 @@ def fmtStr (s : Txt) : Txt := s.filter keepByte
 
 def natAtom (n : Nat) : Atom := .int (n : Int)
 
-/-- `format(val)`: the pieces of the value cell. An `int64` value is printed through `val.Uint64()` — the invalid
-sentinel for that type — hence always "-1" (as written, formatter.go:41). -/
+/-- `format(val)`: the pieces of the value cell. -/
 def formatAtoms : Value → List Atom
   | .invalid => [.str (txt "{0 <nil>}")]        -- fmt.Sprintf("%v", val); no decoded field carries it
   | .bool v => [.int (v % 256)]
@@ -138,7 +137,7 @@ def formatAtoms : Value → List Atom
   | .uint16 v => [.int (v % 2 ^ 16)]
   | .int32 v => [.int (sint 32 v)]
   | .uint32 v => [.int (v % 2 ^ 32)]
-  | .int64 _ => [.int (-1)]
+  | .int64 v => [.int (sint 64 v)]
   | .uint64 v => [.int (v % 2 ^ 64)]
   | .float32 b => [.flt (widen32 b)]
   | .float64 b => [.flt b]
@@ -282,7 +281,8 @@ def descOf (m0 : Message) : Desc :=
     name := joinBar (sliceStringOf (fvalOf m fnFieldDescName)), units := joinBar (sliceStringOf (fvalOf m fnFieldDescUnits)),
     bt := u8Of (fvalOf m fnFieldDescBaseType), scale := u8Of (fvalOf m fnFieldDescScale), offset := i8Of (fvalOf m fnFieldDescOffset) }
 
-def findDesc (ds : List Desc) (devIdx num : Nat) : Option Desc := ds.find? fun d => d.devIdx == devIdx && d.num == num
+/-- `getFieldDescription`: the MOST RECENT description of the pair wins -/
+def findDesc (ds : List Desc) (devIdx num : Nat) : Option Desc := ds.reverse.find? fun d => d.devIdx == devIdx && d.num == num
 
 /-! ### FIT → CSV (`writeMesg`) -/
 
@@ -331,19 +331,11 @@ def nTriples : Line → Nat
 
 def commasIn (t : Txt) : Nat := t.count 44
 
-/-- commas that the unquoted name and units cells of a line bring in themselves (each one more column) -/
-def extraCommas : Line → Nat
-  | .data n cells => commasIn n + (cells.map fun c => commasIn c.name + commasIn c.units).sum
-  | .definition _ => 0
-
-/-- columns of a line as written to the temporary buffer: 3 + 3·k, plus one per comma inside an unquoted cell -/
-def lineCells (l : Line) : Nat := 3 + 3 * nTriples l + extraCommas l
+/-- columns of a line as written to the temporary buffer: 3 + 3·k (a name or units cell containing a comma or a quote
+is written quoted — `writeCell` — and stays one column) -/
+def lineCells (l : Line) : Nat := 3 + 3 * nTriples l
 
 def maxFields (ls : List Line) : Nat := ls.foldl (fun a l => max a (nTriples l)) 0
-
-/-- `missing := maxCommaCount - count` is negative for some line: `bytes.Repeat` panics (only without trimming) -/
-def padPanics (o : Opts) (ls : List Line) : Bool :=
-  !o.trim && ls.any fun l => lineCells l > 3 + 3 * maxFields ls
 
 /-- number of columns of each line of the final CSV, header first: padded to the header's count unless trimming -/
 def columns (o : Opts) (ls : List Line) : List Nat :=
@@ -365,12 +357,12 @@ def inRangeS (w : Nat) (i : Int) : Bool := -(2 ^ (w - 1) : Int) ≤ i && i < 2 ^
 /-- two's-complement pattern of an in-range integer -/
 def pat (w : Nat) (i : Int) : Nat := (i % (2 ^ w : Int)).toNat
 
-/-- float64 bits → float32 bits for a value that IS a float32 (inverse of `widen32`), NaN → the canonical NaN -/
+/-- float64 bits → float32 bits for a value that IS a float32 (inverse of `widen32`); "NaN" reads back as the invalid value -/
 def narrow32 (b : Nat) : Nat :=
   let s := b / 2 ^ 63 % 2
   let e := b / 2 ^ 52 % 2048
   let m := b % 2 ^ 52
-  if e == 2047 then (if m == 0 then s * 2 ^ 31 + 255 * 2 ^ 23 else 0x7FC00000)
+  if e == 2047 then (if m == 0 then s * 2 ^ 31 + 255 * 2 ^ 23 else float32Invalid)
   else if e == 0 then s * 2 ^ 31
   else if e + 127 ≤ 1023 then
     -- subnormal float32: e + 127 - 1023 ≤ 0
@@ -378,6 +370,7 @@ def narrow32 (b : Nat) : Nat :=
     s * 2 ^ 31 + ((2 ^ 52 + m) / 2 ^ (29 + shift))
   else s * 2 ^ 31 + (e + 127 - 1023) * 2 ^ 23 + m / 2 ^ 29
 
+/-- what the text "NaN" parses to before `parseValue` replaces it by the invalid value -/
 def canonNaN64 : Nat := 0x7FF8000000000001
 
 /-- `parseValue(piece, baseType, profileType, scale, offset, units)` -/
@@ -408,7 +401,7 @@ def parseAtom (ar : Arith) (a : Atom) (bt : Nat) (isBool : Bool) (scale offset :
     if bt == btFloat32 then
       if isScaledField scale offset then .unmodelled else .ok (.float32 (narrow32 b))
     else if bt == btFloat64 then
-      if isScaledField scale offset then .unmodelled else .ok (.float64 (if isNaN64 b then canonNaN64 else b))
+      if isScaledField scale offset then .unmodelled else .ok (.float64 (if isNaN64 b then float64Invalid else b))
     else if bt == btString then .unmodelled
     else if b / 2 ^ 52 % 2048 == 2047 then .err     -- "NaN", "+Inf", "-Inf" have no dot: ParseInt / ParseUint fail
     else .unmodelled
@@ -535,7 +528,7 @@ def readCell (ar : Arith) (ds : List Desc) (mesgNum : Nat) (c : Cell) : R Parsed
     | .unmodelled => .unmodelled
   | none =>
     if isPrefixOf' unknownTxt c.name then .ok .skip else     -- unknown without a number: unknownField++
-    match ds.find? (fun d => d.name == c.name) with
+    match ds.reverse.find? (fun d => d.name == c.name) with     -- the most recent description with that name
     | some d =>
       let r := if c.val.length != 1 then
           match mapR (fun a => parseAtom ar a d.bt false (descScale d) (descOffset d) c.units) c.val with
@@ -704,7 +697,7 @@ def gateSeq : List Nat → List Desc → List Message → Bool
     (let ids' := if m.num == mnDeveloperDataId then ids ++ [u8Of (fvalFirst m.fields 3)] else ids
      let ds' := if m.num == mnFieldDescription then ds ++ [descOf m] else ds
      m.devFields.all (fun d => ids'.contains d.devIdx &&
-        match findDesc ds' d.devIdx d.num with
+        match ds'.find? (fun e => e.devIdx == d.devIdx && e.num == d.num) with   -- the validator's own (first) match
         | some desc => align d.value desc.bt
         | none => false) &&
      gateSeq ids' ds' ms)
